@@ -73,6 +73,7 @@ func init() {
 			c.R.AddCount("evaluations", int64(total["buffers"].(float64)))
 			c.R.Cov["skip_buffers"] = total["buffers"]
 			c.R.Cov["skip_wellformed_first_record"] = total["wellformed_first"]
+			c.R.Cov["skip_accepts_malformed_first_record"] = total["skip_accepts_malformed"] // not constrained by C15; see C06
 		}
 		for _, v := range verdicts {
 			if v.Kind != "skip" {
